@@ -493,12 +493,18 @@ func (d *Driver) Finish() int {
 		}
 	}
 	var replays []string
-	for _, s := range siteOrder {
+	verbose := os.Getenv("VERIF_VERBOSE") != ""
+	for i, s := range siteOrder {
 		v := newSites[s][0] // smallest input of the site
 		rp := d.writeReplay(v, "viol")
 		replays = append(replays, rp)
 		fmt.Printf("VIOLATION property=%s replay=%s\n", p.ID(), rp)
-		fmt.Printf("  site=%s cases=%d input=%s\n  %s\n", s, len(newSites[s]), Quote(v.Case.In, 300), strings.ReplaceAll(firstLines(v.Msg, 12), "\n", "\n  "))
+		switch {
+		case verbose || i < 6:
+			fmt.Printf("  site=%s cases=%d input=%s\n  %s\n", s, len(newSites[s]), Quote(v.Case.In, 200), strings.ReplaceAll(firstLines(v.Msg, 8), "\n", "\n  "))
+		default:
+			fmt.Printf("  site=%s cases=%d (details in the replay file)\n", s, len(newSites[s]))
+		}
 	}
 	// floors
 	d.Distinct = len(d.hashes)
